@@ -3,6 +3,21 @@ import json, os
 VERIF = os.path.dirname(os.path.dirname(os.path.abspath(__file__)))
 
 CHECKS = {
+    "C12": dict(
+        category="model_checking",
+        text="TLC enumerates the bounded input spaces of four transcriptions of CPython's run-time rules and checks rule-level invariants: argument "
+             "binding (ArgBind.tla: <=3 params x <=3 actuals and <=4 x <=2 complete, seeded <=4 x <=4), C3 linearisation (C3.tla: all hierarchies "
+             "<=5 classes, <=6 model-checked and sampled), version / platform comparisons (Reach.tla: all accepted forms x targets 3.0-3.15 x micro x "
+             "platforms, value on the run-time 5-tuple) and the constant-folding grammar (Fold.tla: depth 3 over 50 boundary operand tokens). Every "
+             "emitted case is executed by CPython (the oracle; a specification / CPython difference is drift, exit 2) and given to real mypy "
+             "(call-line diagnostics, TypeInfo.mro + MRO error, Block.is_unreachable, Final values) and mypyc's constant_fold_expr; "
+             "disagreements are reduced to 1-minimal inputs. Three spec-level mutants are rejected on every run.",
+        design_ref="DESIGN.md 5.C12, notes/C12.md",
+        note="exhaustive within the stated bounds only; 4x3, 4x4 and 6-class replay are sampled; a size guard excludes huge evaluations; total "
+             "TypedDicts and fixed tuples only; known findings: sys.version_info == / != / <= / > against a 2-tuple (8 keys) and duplicate "
+             "keywords collected by **kwargs / *tuple + **TypedDict (3 keys)",
+        technique="TLA+ specs (ArgBind, C3, Reach, Fold) model-checked with TLC; TLC-emitted inputs replayed three-way into CPython, mypy and mypyc",
+    ),
     "C06": dict(
         category="model_checking",
         text="TLC explores every feasible CFG path of Ownership.tla (an abstract ownership machine: per-leaf owned-reference counters, definedness "
